@@ -445,6 +445,7 @@ func (ps *PathSum) callStatic(s *psState, f *psFrame, x ssa.Instruction, callee 
 			}
 		}
 		ps.emit(s, f, pos, kind, args[1:]...)
+		s.trace[len(s.trace)-1].Res = res
 		if kind == "SFDelete" {
 			// a write clears the key's in-flight record: later identity tests of old records fail
 			s.cells["&sfcleared"] = args[1]
